@@ -95,7 +95,7 @@ def permute_enet(en, perm):
     return e2, P
 
 
-def emit(sc, duts, extra_before=None, name="cal"):
+def emit(sc, duts, extra_before=None, name="cal", extra_between=None):
     sc.reset_vars()
     s = Script()
     lines = {}
@@ -103,8 +103,11 @@ def emit(sc, duts, extra_before=None, name="cal"):
     if extra_before:
         extra_before(s)
     uid = [0]
-    lines["add"] = [sc.emit_std(s, st, i, uid=uid)
-                    for i, st in enumerate(sc.stds)]
+    lines["add"] = []
+    for i, st in enumerate(sc.stds):
+        if extra_between:
+            extra_between(s, i)
+        lines["add"].append(sc.emit_std(s, st, i, uid=uid))
     lines["solve"] = s.op("vnacal_new_solve $vn")
     lines["addcal"] = s.op("ci=vnacal_add_calibration $vc %s $vn" % qs(name))
     s.op("vd=vnadata_alloc")
@@ -133,6 +136,18 @@ def unrelated(rng):
         if rng.random() < 0.5:
             s.op("vnacal_new_free $zn")
         s.op("vnacal_property_set $vc -1 \"x.y=1\"")
+    return fn
+
+
+def unrelated_between(rng):
+    """parameters of other calibrations created between those of this one:
+    the handles the calibration sees are no longer consecutive"""
+    burst = [int(x) for x in rng.integers(0, 14, 64)]
+
+    def fn(s, i):
+        for j in range(burst[i % len(burst)]):
+            s.op("yy%d_%d=vnacal_make_scalar_parameter $vc %s" % (
+                i, j, cx(0.01 * (i + 1) + 0.02j * (j + 1))))
     return fn
 
 
@@ -188,6 +203,28 @@ def work(chunk_id, payload):
             cnt["skipped_not_well_determined"] = cnt.get(
                 "skipped_not_well_determined", 0) + 1
             continue
+        if tr == "unrelated" and rng.random() < 0.7:
+            # an unknown reflect seen by the first and by the last standard
+            # added: its handle is looked up again after everything else of
+            # this calibration has been entered
+            truth = (rng.standard_normal() + 1j * rng.standard_normal()) * 0.5 \
+                + 0.05 * (rng.standard_normal(F) + 1j * rng.standard_normal(F))
+            gs = calgen.Param("scalar", np.full(
+                F, np.mean(truth) + 0.02 * (rng.standard_normal() + 1j *
+                                            rng.standard_normal())))
+            unk = calgen.Param.unknown(truth, gs)
+            q1, q2 = int(rng.integers(1, A.p + 1)), int(rng.integers(1, A.p + 1))
+            first = A.add_reflect([q1], [unk])
+            last = A.add_reflect([q2], [unk])
+            A.stds = [first] + A.stds[:-2] + [last]
+            for st in (first, last):
+                st.form = A.form
+                st.entry = "single_reflect"
+                st.noise = [(rng.standard_normal((A.r, A.c)) + 1j *
+                             rng.standard_normal((A.r, A.c))) *
+                            (1e-3 / np.sqrt(2.0)) for _ in range(F)]
+            cnt["unrelated_with_unknown"] = cnt.get(
+                "unrelated_with_unknown", 0) + 1
         duts = A.rand_dut()
         # pre-generate the a matrices of A (emission is lazy) so that B can
         # share or transform them
@@ -275,7 +312,9 @@ def work(chunk_id, payload):
         else:
             sB, lB = emit(B, dutsB if tr == "renumber" else duts,
                           extra_before=unrelated(rng) if tr == "unrelated"
-                          else None)
+                          else None,
+                          extra_between=unrelated_between(rng)
+                          if tr == "unrelated" else None)
             cases.append((cid + "a", sA.text()))
             cases.append((cid + "b", sB.text()))
             meta[cid] = (tr, A, kappa, lA, [(B, lB)], post, sA.text(),
